@@ -120,6 +120,8 @@ def shards(tier, seed):
                 [o for o in opts if deviations(o) <= 2 and o['symcls'] == 'sympy'], 'four')
             add('d=2: option settings with 3 and 4 deviations x 4 grade blocks', c, [o for o in opts if deviations(o) > 2 and o['symcls'] != 'sympy'], 'four')
         add('d=3: single-deviation option settings x 4 grade blocks (3 small blocks in Algebra(3))', spaces.cfg_pqr(2, 0, 1), [o for o in opts if deviations(o) == 1 and o['symcls'] != 'sympy'], 'four')
+        for c in [spaces.cfg_pqr(4, 0, 0), spaces.cfg_pqr(3, 0, 1), spaces.NAMED['2DPGA'], spaces.NAMED['3DPGA'], spaces.cfg_pqr(5, 0, 0)]:
+            add('basis blades under single-deviation option settings: d=4,5 and named custom bases', c, [o for o in opts if deviations(o) == 1 and o['symcls'] != 'sympy'], 'none')
         add('d=3: single-deviation option settings x 4 grade blocks (3 small blocks in Algebra(3))', spaces.cfg_pqr(3, 0, 0), [o for o in opts if deviations(o) == 1 and o['symcls'] != 'sympy'], 'three')
     else:
         nons = [o for o in opts if o['symcls'] != 'sympy']
@@ -134,6 +136,8 @@ def shards(tier, seed):
             add('d<=2: all 23 non-default option settings x all grade blocks (4 blocks for the sympy symbol class)', c, sym, 'four')
         for c in [spaces.cfg_pqr(4, 0, 0), spaces.cfg_pqr(3, 0, 1), spaces.cfg_pqr(1, 3, 0), spaces.cfg_sig([1, -1, 0, 1])]:
             add('d=4: single-deviation non-sympy settings x 3 small grade blocks', c, [o for o in nons if deviations(o) == 1], 'three')
+        for c in [spaces.NAMED['2DPGA'], spaces.NAMED['3DPGA'], spaces.NAMED['STAP'], spaces.cfg_pqr(5, 0, 0), spaces.cfg_pqr(4, 1, 1)] + [spaces.cfg_sig([1, 1, -1], basis=b) for b in spaces.bases_by_deviation(3, 1)[1:]]:
+            add('basis blades under all non-sympy option settings: d=5,6 and custom bases', c, nons, 'none')
     return sh
 
 
@@ -143,6 +147,8 @@ def blocks_for(alg, which):
     G = [g for g in G if g]
     if which == 'all':
         return G
+    if which == 'none':
+        return []
     d = alg.d
     g = spaces.grade_of
     pick = [(1,), (2,), (0, 2)] if which == 'three' else [(1,), (0, 2), (2,), (0, 1, 2, 3)[:d + 1]] if which == 'four' else [(0,), (1,), (2,), (0, 2), (1, 3)[:2 if d >= 3 else 1], tuple(range(d + 1))]
@@ -214,6 +220,22 @@ def run_shard(shard):
                 case['cause'] = (op, 'chain', sorted(optset(opt)))
                 res.violate(violation(K('chain'), f'{name} [{on}] result of {op} on {keysdesc} cannot be used in a further operation: {type(e).__name__}: {e}', case, 'usable', repr(e)))
 
+    # basis blades handed out by the algebra under these options denote the same elements as with default options
+    if not shard.get('only'):
+        for nm in base.canon2bin:
+            res.evals += 1
+            try:
+                want, _ = mvdict(base.blades[nm])
+                got, _ = mvdict(alg.blades[nm])
+                got = {k: v for k, v in got.items() if v != 0}
+                if got != want:
+                    c = {'shard': dict(shard, blocks=['list', []]), 'cause': ('blades', 'value', sorted(optset(opt)))}
+                    metric = 'null-metric' if any(int(x) == 0 for x in base.signature) else 'non-null-metric'
+                    res.violate(violation(f"blades:value:{'+'.join(sorted(optset(opt)))}:{metric}", f'{name} [{on}] alg.blades.{nm} is a different element than with default options', c, show(want), show(got)))
+            except Exception as e:
+                c = {'shard': dict(shard, blocks=['list', []]), 'cause': ('blades', 'raises', sorted(optset(opt)))}
+                metric = 'null-metric' if any(int(x) == 0 for x in base.signature) else 'non-null-metric'
+                res.violate(violation(f"blades:raises:{'+'.join(sorted(optset(opt)))}:{metric}", f'{name} [{on}] alg.blades.{nm} raises {type(e).__name__}: {e}', c, '', repr(e)))
     for i, ka in enumerate(blocks):
         study = (0 in ka) and len({spaces.grade_of(k) for k in ka}) <= 2
         for op in UNARY:
